@@ -7,7 +7,7 @@
 (* says the results and the state must be in exp, the logged values in     *)
 (* obs, and the invariant Conforms compares them.  Nothing is inferred     *)
 (* from the plan; nothing but arguments is taken from the trace.           *)
-EXTENDS ApiSponge, ApiCpp, ApiKdf, Conc, Json, IOUtils, TLC
+EXTENDS ApiSponge, ApiCpp, ApiKdf, ApiHex, Conc, Json, IOUtils, TLC
 
 T == ndJsonDeserialize(IOEnv.TRACE)
 
@@ -304,8 +304,49 @@ TrCppDel == IsEv("cpp.del") /\ LET ev == T[l] IN Step(Del(ev.obj), <<>>, <<>>)
 MiscNext == TrCppNew \/ TrCppSetKey \/ TrCppSetNonce \/ TrCppSetCounter \/ TrCppEnc \/ TrCppDec \/ TrCppClear
             \/ TrCppSaveKey \/ TrCppRandomize \/ TrCppDel
 
+
 -----------------------------------------------------------------------------
-Next == TrReset \/ PermNext \/ SpongeNext \/ AeadNext \/ AeadIncNext \/ KdfNext \/ IsapNext \/ PrngNext \/ MiscNext
+(* C17: header-only C++ hash/XOF classes, replayed as the sponge objects   *)
+(* they wrap; C20: hex codec and byte-array helpers                        *)
+CxhKind(cls) == CASE cls = "hash" -> "hash" [] cls = "hasha" -> "hasha"
+                  [] cls \in {"xof", "xof16", "xof32", "xof64"} -> "xof"
+                  [] cls \in {"xofa", "xofa16", "xofa32", "xofa64"} -> "xofa"
+CxhLen(cls) == CASE cls \in {"hash", "hasha", "xof32", "xofa32"} -> 32 [] cls \in {"xof", "xofa"} -> 0
+                 [] cls \in {"xof16", "xofa16"} -> 16 [] cls \in {"xof64", "xofa64"} -> 64
+CxhSet(ev, o) == Put(ev.obj, [kind |-> CxhKind(ev.cls), s |-> o.s, count |-> o.count, mode |-> o.mode])
+CxhPar(ev) == SpPar(CxhKind(ev.cls))
+
+TrCxhNew == IsEv("cxh.new") /\ LET ev == T[l]  v == CxhPar(ev).v
+      o == CASE ev.how = "default" -> SpInitXof(v, SzOf(CxhLen(ev.cls)))
+             [] ev.how = "copy" -> objs[ev.src]
+             [] OTHER -> SpInitCustom(v, ev.name, ev.custom, SzOf(CxhLen(ev.cls))) IN
+  Step(CxhSet(ev, o), StOf(o), StEv(ev))
+TrCxhAssign == IsEv("cxh.assign") /\ LET ev == T[l]  o == objs[ev.src] IN Step(CxhSet(ev, o), StOf(o), StEv(ev))
+TrCxhReset == IsEv("cxh.reset") /\ LET ev == T[l]  o == SpInitXof(CxhPar(ev).v, SzOf(CxhLen(ev.cls))) IN
+  Step(CxhSet(ev, o), StOf(o), StEv(ev))
+TrCxhAbsorb == IsEv("cxh.absorb") /\ LET ev == T[l]
+      o == IF ev.form = "cstrnull" THEN objs[ev.obj] ELSE SpAbsorb(CxhPar(ev), objs[ev.obj], ev["in"]) IN
+  Step(CxhSet(ev, o), StOf(o), StEv(ev))
+TrCxhSqueeze == IsEv("cxh.squeeze") /\ LET ev == T[l]  r == SpSqueeze(CxhPar(ev), objs[ev.obj], ev.n) IN
+  Step(CxhSet(ev, r.o), <<StOf(r.o), r.out, 1>>, <<StEv(ev), ev.out, ev.guard>>)
+TrCxhPad == IsEv("cxh.pad") /\ LET ev == T[l]  o == SpPad(CxhPar(ev), objs[ev.obj]) IN Step(CxhSet(ev, o), StOf(o), StEv(ev))
+TrCxhDel == IsEv("cxh.del") /\ LET ev == T[l] IN Step(Del(ev.obj), <<>>, <<>>)
+TrCxhDigest == IsEv("cxh.digest") /\ LET ev == T[l] IN
+  Step(objs, <<IF ev.cls = "hash" THEN Hash(ev["in"]) ELSE Hasha(ev["in"]), 1>>, <<ev.out, ev.guard>>)
+
+TrUtilFromHex == IsEv("util.from_hex") /\ LET ev == T[l] IN Step(objs, <<BytesFromHex(ev.str)>>, <<ev.out>>)
+TrUtilToHex == IsEv("util.to_hex") /\ LET ev == T[l] IN Step(objs, <<HexEnc(ev["in"], ev.upper = 1)>>, <<ev.out>>)
+TrUtilFromData == IsEv("util.from_data") /\ LET ev == T[l] IN Step(objs, <<ev["in"]>>, <<ev.out>>)
+TrHexTo == IsEv("hex.to") /\ LET ev == T[l]  r == BytesToHex(ev["in"], ev.space, ev.upper = 1) IN
+  Step(objs, <<r.ret, r.out, 1, 1>>, <<ev.ret, ev.out, ev.guard, IF r.ret = -1 THEN 1 ELSE ev.tail_untouched>>)
+TrHexFrom == IsEv("hex.from") /\ LET ev == T[l]  r == HexDecSpec(ev.str, ev.space) IN
+  Step(objs, <<r.ret, r.out, 1>>, <<ev.ret, ev.out, ev.guard>>)
+
+ExtraNext == TrCxhNew \/ TrCxhAssign \/ TrCxhReset \/ TrCxhAbsorb \/ TrCxhSqueeze \/ TrCxhPad \/ TrCxhDel \/ TrCxhDigest
+             \/ TrUtilFromHex \/ TrUtilToHex \/ TrUtilFromData \/ TrHexTo \/ TrHexFrom
+
+-----------------------------------------------------------------------------
+Next == TrReset \/ PermNext \/ SpongeNext \/ AeadNext \/ AeadIncNext \/ KdfNext \/ IsapNext \/ PrngNext \/ MiscNext \/ ExtraNext
 
 Spec == Init /\ [][Next]_vars
 
